@@ -33,6 +33,21 @@ Readings (where the property's words leave a choice, the one under which the rep
   signature, shorter than a bar) ends at beat 0, a barebones part counts from its first note (documented shift).
   Not judged (see inv_expected_back): pieces that end before their first bar line (C02 reads the only, short,
   measure as a pickup), bars that are not a whole number of divisions (C11), contradicting columns.
+* "every optional column equals what the score states" (round 5): a value Python reads as false is a VALUE - voice 0,
+  staff 0, alteration 0, octave 0, an empty id are what the score states; only None is "missing" (voice: largest voice
+  + 1, staff: 0, alteration: 0).  A stated voice -1 collides with the code's marker and is not generated.
+* inverse direction with CHANGING signature columns (round 5): the rebuilt part must state, at every note, the time
+  signature the array states there (columns or `time_sigs` list) - a change wherever the column changes, also back to
+  an earlier value; "the same onsets come back" in beats is asked of arrays that are self-consistent (their beat
+  columns are what their division columns give under their own signature columns, up to a pickup: invx_consistent) and
+  whose first bar is complete.  The array can only say where a signature starts by a row that carries it: a change
+  that no note stands on is placed at the next note (not judged in beats when the beat type changes there).
+  Key-signature columns are not part of "onsets, durations and pitches": that they come back (repaired code,
+  fixes/C05-10) is compared with the model and proved of it, not judged by the oracle; an array with such columns must
+  be ACCEPTED ('inverse raised').
+* score-level tables: only onset_div, duration_div and divs_pq are rescaled to the common divisions; the metrical columns
+  stay in the divisions of the row's own part (C05.merged_metrical_columns_in_part_divisions); model and oracle follow
+  the code.
 """
 import math
 from fractions import Fraction
@@ -45,7 +60,8 @@ from core import Eval
 PROPERTY = "C05"
 DRIVER = "drv_c05"
 PROPS = ["PartituraModel.Props.C05", "PartituraModel.Props.C05Compose", "PartituraModel.Props.C05Collapse",
-         "PartituraModel.Props.C05Back"]
+         "PartituraModel.Props.C05Back", "PartituraModel.Props.C05Ts", "PartituraModel.Props.C05Tables",
+         "PartituraModel.Props.C05Columns", "PartituraModel.Props.C05San"]
 TRUSTED = [
     "the timeline reads that describe a part to the model (property C01): len(part._points), first/last point, "
     "_quarter_times/_quarter_durations, iter_all(TimeSignature | KeySignature | Measure) with their start/end times, "
@@ -58,9 +74,21 @@ TRUSTED = [
     "time columns are compared within 2^-20 relative, and the sort key f32(exact beat) is assumed to order the rows like "
     "f32(binary64 beat) (a difference would need an onset within 2^-52 of a float32 rounding boundary)",
     "Fraction.limit_denominator (modelled and compared on every generated value), Python round/int on binary64",
-    "estimate_spelling / estimate_voices keep the pitch (C17) and add_measures / tie_notes keep the tied duration "
-    "(C11) inside note_array_to_score(sanitize=True): hypothesis of from_to_array_sanitized; on every generated array "
-    "the oracle compares the sanitized part with the unsanitized one and reads the tie chains off the timeline",
+    "estimate_spelling / estimate_voices keep the pitch (C17): in the model of the created part a spelling that keeps "
+    "every integer pitch stands for them (`dummySpell`, C12.midi_spelling); tie_notes / find_tuplets / sanitize_part "
+    "inside note_array_to_score(sanitize=True) are C11's model and theorems, composed here with every side condition "
+    "discharged for the notes create_part adds (Props/C05San.lean); on every generated array the oracle still compares "
+    "the sanitized part with the unsanitized one and reads the tie chains off the timeline",
+    "inverse direction with changing signature columns (request `invx`): the model is told which columns the array has, "
+    "the divs argument, the time_sigs list and the sanitize flag and computes the created part itself - signatures with "
+    "their start times, pickup measure, measures (Model/Measures.lean, C11), the pieces tie_notes leaves, and the whole "
+    "note array of the new part through Model/TimeMap.lean (C02) and Model/StepMap.lean (C10), key names through "
+    "Model/Pitch.lean (C12); not modelled: key_sigs / estimate_key arguments, a time_sigs list with explicit end times, "
+    "the `name_id` / id assignment (ids are not compared in this direction)",
+    "harness/translate_c05.py reads the literal data (field lists, option -> map selection, keyword defaults, missing-"
+    "voice marker, id prefix format, sort kinds, limit_denominator, lexsort keys, the column names of the signature "
+    "switches) off the live source with `ast` / `inspect`; an item whose form it cannot read is left empty and its "
+    "theorem holds vacuously (Gen.C05.unreadable; the example at the end of Props/C05Tables.lean shows it is empty here)",
     "inverse direction, what comes back (request `invback`): the model is told the one time signature the new part gets "
     "(columns of the array / time_sigs / 4/4 for estimate_time) and the sanitize flag; of add_measures only the first "
     "measure (to the bar line or the end of the part) and of the time maps only the pickup rule are modelled (C11 / C02 "
@@ -75,8 +103,15 @@ PARTIAL = [
     "every rounding: collapse_total, collapse_merges_adjacent); totals are per VOICE (the code ignores the staff); "
     "the hypotheses CleanTable (rows ordered by onset_div, positive durations, no overlap within a voice) are checked by "
     "the oracle on each generated part, overlapping rests are compared with the model only",
-    "from_to_array: the model's created part has no measures/ties; the sanitize=True path enters as the hypothesis of "
-    "from_to_array_sanitized (C11's statement) and is compared",
+    "inverse direction, sanitize=True: from_to_array_x / time_signature_columns_come_back / key_signature_columns_come_back "
+    "are about the table of the created part BEFORE tie_notes (its notes are untied), sanitize_keeps_created_notes (C11 "
+    "composed, no side condition) says tie_notes / find_tuplets / sanitize_part keep those rows in C11's representation of "
+    "a note list (keys); that the two representations of a TIED note list (C11: keys, C05: indices) give the same table "
+    "is not a theorem - the `invx` stream compares the pieces of tie_notes and the whole table with the real part",
+    "Props/C05Ts.lean: the signature columns come back for arrays WITH division columns (beat-only arrays get their "
+    "divisions from create_divs_from_beats: compared and judged by the oracle, not proved); that the BEAT columns come "
+    "back over several signatures is not a theorem (composition of C02's knots with the change list): correspondence "
+    "`invx` + oracle 'inverse onsets back' on self-consistent arrays; Props/C05Back.lean proves it for one signature",
     "Props/C05Back.lean (onsets that come back): proved for beat columns on the 1/256 grid (limit_denominator is then the "
     "identity: late_entry_not_moved / pickup_moved_to_zero hold for every array in terms of the limited beats); beats that "
     "float32 does not hold exactly (5/6 -> 0.8333333) are covered by the correspondence `invback`, the oracle clause "
@@ -85,8 +120,6 @@ PARTIAL = [
     "row_values_composed: a time outside the part's extent (NaN in a float column) makes the model refuse (`none`) where "
     "the code stores NaN; generated notes lie inside the part; musical beats only with the default table "
     "(use_musical_beat() without arguments)",
-    "the metrical columns of a score-level array are left in the divisions of their own part by the code (only onset_div, "
-    "duration_div and divs_pq are rescaled); model and oracle follow the code",
 ]
 RULE = ("generated parts (explicit measures, optional pickup, time/key signature changes, optional division change, "
         "tie chains across bars, grace notes, chords, rests, unpitched notes, voice=None, staff=None, optionally switched to "
@@ -98,7 +131,13 @@ RULE = ("generated parts (explicit measures, optional pickup, time/key signature
         "notes crossing barlines) for the inverse; the inverse direction additionally over the whole grid {beat, div, both "
         "columns} x {negative, zero, positive first onset} x {barebones, estimate_time, time-signature columns, time_sigs "
         "list}, every cell at least twice per run (30 x in thorough), with quarter columns, sanitize on/off, pickups that float32 "
-        "rounds towards 0, late entries of a division / a beat / whole bars.  distinct = distinct request text; non-trivial = at least one row compared")
+        "rounds towards 0, late entries of a division / a beat / whole bars.  Round 5: 35 % of the parts carry FALSY-BUT-VALID "
+        "values (voices numbered from 0 next to positive and missing voices, staff 0, octave 0 / -1, one empty id), 25 % have "
+        "signatures that RETURN (time signature A B A with different beat types, key A B A); every entry point is also called "
+        "without options (defaults); arrays whose ts / ks columns change and return (patterns ABA, ABAB, ABCA, AABA, ...) x "
+        "{div, both, beat columns} x {columns, time_sigs list} x pickup x sanitize x key columns under both spellings of their "
+        "names x voices from 0, one third of them taken from generated parts (24 per quick run, 600 thorough); the id prefix "
+        "format applied by Python against the model.  distinct = distinct request text; non-trivial = at least one row compared")
 LEVEL_TEXT = ("Lean 4 theorems over an executable model of the table construction (tie chains, voice/staff replacement, "
               "two-pass sort, lcm rescaling, id prefixing, rest collapsing, entry-point dispatch, inverse construction incl. "
               "when the onsets are shifted, where the pickup measure ends and which quarter / beat onsets come back), "
@@ -106,7 +145,13 @@ LEVEL_TEXT = ("Lean 4 theorems over an executable model of the table constructio
               "every time / signature / metrical column IS that model's value at the onset or offset, float32 only in the "
               "sort key); the model is tied to the code by running both on the same generated parts/scores/arrays - the "
               "model is fed the part description, not map values - and comparing every cell, and an independent "
-              "Fraction/plain-Python oracle rebuilds the table from the timeline and from the description.")
+              "Fraction/plain-Python oracle rebuilds the table from the timeline and from the description.  Round 5: the "
+              "inverse direction is composed end to end inside the model (array -> signature changes -> created part -> "
+              "add_measures / tie_notes of C11 -> note array through C02 / C10 / C12): the time- and key-signature columns "
+              "come back for every valid array with division columns (theorems, also when a signature returns), sanitize "
+              "keeps the created notes (C11 composed, no side condition); falsy-but-valid values are kept (theorem); the "
+              "literal data of the source (dtype field lists, option -> map selection, defaults, markers, formats) is "
+              "regenerated on every run and proved equal to what the model implements for all 2^8 option vectors.")
 
 FLOATCOLS = ("onset_beat", "duration_beat", "onset_quarter", "duration_quarter")
 RTOL = 2.0 ** -20
@@ -119,15 +164,34 @@ OPTN = ("include_pitch_spelling", "include_key_signature", "include_time_signatu
 
 # ====================================================================== generation
 def gen_part(rng, pid, divs=None, nbars=None, pickup=False, qd_change=False, p_none_voice=0.0, p_none_staff=0.0,
-             p_tie=0.2, staves=1, voices=2, empty=False, p_unp=0.03, p_rest=0.12, p_grace=0.08, p_chord=0.25):
+             p_tie=0.2, staves=1, voices=2, empty=False, p_unp=0.03, p_rest=0.12, p_grace=0.08, p_chord=0.25, falsy=False,
+             recur=False):
+    """falsy: FALSY-BUT-VALID values - voices numbered from 0 (next to positive voices and voice=None), staff 0, octave 0 and
+    -1 (pitch 0), alter 0 next to alter None, one empty id: a column must state what the score states, and a value that
+    Python reads as false is a value, not a missing one.
+    recur: the time signatures (and the key) RETURN to an earlier value (A B A, different beat types)"""
     divs = divs or rng.choice([1, 2, 3, 4, 5, 6, 8, 12, 16, 24])
     nbars = nbars or rng.randint(1, 5)
     d = {"id": pid, "divs": divs, "qd": [], "ts": [], "ks": [], "clefs": [], "notes": [], "measures": [], "extras": []}
     beats, bt = rng.choice(TS_POOL)
     t = 0
     bars = []
+    if recur:
+        # (after a pickup bar the first full bar keeps the signature: measure_map measures the pickup against a beat of it)
+        first = 2 if pickup else 1
+        nbars = max(nbars, first + 2)
+        ok = [x for x in TS_POOL if (4 * x[0] * divs) % x[1] == 0]
+        sa = rng.choice(ok)
+        sb = rng.choice([x for x in ok if x[1] != sa[1]] or [x for x in ok if x != sa] or ok)
+        cut1 = rng.randint(first, nbars - 2)
+        cut2 = rng.randint(cut1 + 1, nbars - 1)
+        plan = {0: sa, cut1: sb, cut2: sa}
     for m in range(nbars):
-        if m == 0 or rng.random() < 0.3:
+        if recur:
+            if m in plan:
+                beats, bt = plan[m]
+                d["ts"].append([t, beats, bt])
+        elif m == 0 or rng.random() < 0.3:
             beats, bt = rng.choice(TS_POOL)
             if (4 * beats * divs) % bt:
                 beats, bt = rng.choice([(4, 4), (3, 4), (2, 4)])
@@ -139,7 +203,14 @@ def gen_part(rng, pid, divs=None, nbars=None, pickup=False, qd_change=False, p_n
         d["measures"].append([t, t + blen, m + 1])
         t += blen
     d["ks"].append([0, rng.randint(-7, 7), rng.choice(["major", "minor", None])])
-    if nbars > 1 and rng.random() < 0.4:
+    if recur:
+        # key A B A at bar lines
+        k0 = d["ks"][0]
+        i1 = rng.randint(1, nbars - 2)
+        i2 = rng.randint(i1 + 1, nbars - 1)
+        d["ks"].append([bars[i1][0], rng.choice([f for f in range(-7, 8) if f != k0[1]]), rng.choice(["major", "minor"])])
+        d["ks"].append([bars[i2][0], k0[1], k0[2] or "major"])
+    elif nbars > 1 and rng.random() < 0.4:
         d["ks"].append([bars[rng.randrange(1, nbars)][0], rng.randint(-7, 7), rng.choice(["major", "minor"])])
     for s in range(1, staves + 1):
         d["clefs"].append([0, s, rng.choice(["G", "F", "C"]), rng.choice([2, 3, 4]), 0])
@@ -148,8 +219,10 @@ def gen_part(rng, pid, divs=None, nbars=None, pickup=False, qd_change=False, p_n
     if empty:
         return d
     nid = 0
-    for v in range(1, voices + 1):
-        staff = rng.randint(1, staves)
+    vbase = 0 if falsy else 1
+    octs = (lambda: rng.choice([-1, 0, 0, 1, 2, 4, 7])) if falsy else (lambda: rng.randint(1, 7))
+    for v in range(vbase, vbase + voices):
+        staff = rng.randint(0 if falsy else 1, staves)
         open_tie = None
         force_chain = 0
         for (bs, be) in bars:
@@ -167,7 +240,8 @@ def gen_part(rng, pid, divs=None, nbars=None, pickup=False, qd_change=False, p_n
                     continue
                 if rng.random() < p_grace:
                     d["notes"].append({"id": "%sg%d" % (pid, nid), "t": pos, "dur": 0, "kind": "grace", "step": rng.choice(STEPS),
-                                       "alter": rng.choice([-1, 0, 0, 1, None]), "oct": rng.randint(2, 6), "voice": vv, "staff": ss,
+                                       "alter": rng.choice([-1, 0, 0, 1, None]), "oct": octs() if falsy else rng.randint(2, 6),
+                                       "voice": vv, "staff": ss,
                                        "grace_type": rng.choice(["grace", "acciaccatura", "appoggiatura"])})
                     nid += 1
                 nchord = 1 + (rng.random() < p_chord) + (rng.random() < p_chord / 2)
@@ -178,7 +252,7 @@ def gen_part(rng, pid, divs=None, nbars=None, pickup=False, qd_change=False, p_n
                         step, alter, octv = prev["step"], prev["alter"], prev["oct"]
                     else:
                         for _ in range(10):
-                            step, alter, octv = rng.choice(STEPS), rng.choice([-2, -1, 0, 0, 0, 1, 2, None]), rng.randint(1, 7)
+                            step, alter, octv = rng.choice(STEPS), rng.choice([-2, -1, 0, 0, 0, 1, 2, None]), octs()
                             if (step, octv) not in used:
                                 break
                     used.add((step, octv))
@@ -199,6 +273,11 @@ def gen_part(rng, pid, divs=None, nbars=None, pickup=False, qd_change=False, p_n
                                 force_chain = rng.randint(1, 4)
                 pos += dur
     rng.shuffle(d["notes"])
+    if falsy and d["notes"]:
+        tied = set(n["tie"] for n in d["notes"] if n.get("tie"))
+        free = [n for n in d["notes"] if n["id"] not in tied and not n.get("tie")]
+        if free and pid == "a" and rng.random() < 0.5:
+            rng.choice(free)["id"] = ""  # an empty id is an id (one per score: the oracle looks rows up by id)
     if rng.random() < 0.35:
         # construction HISTORY (gen_score.build_part): read-only views (note arrays, notes_tied, maps, ...) are called
         # between the construction steps - e.g. before the ties are set - and the notes may be placed wrongly first
@@ -235,7 +314,8 @@ def pick_divs(rng, n):
 def part_kw(rng):
     return dict(pickup=rng.random() < 0.3, p_none_voice=rng.choice([0, 0, 0.2, 0.5, 1.0]),
                 p_none_staff=rng.choice([0, 0, 0.3, 1.0]), p_tie=rng.choice([0.1, 0.2, 0.5]),
-                staves=rng.choice([1, 1, 2]), voices=rng.choice([1, 2, 2, 3]))
+                staves=rng.choice([1, 1, 2]), voices=rng.choice([1, 2, 2, 3]), falsy=rng.random() < 0.35,
+                recur=rng.random() < 0.25)
 
 
 INV_COLS = ("beat", "div", "both")
@@ -344,12 +424,111 @@ def gen_inv(rng, malformed=False, want=None):
     return d
 
 
+
+# ---------------------------------------------------------------------- inverse direction, CHANGING signatures (round 5)
+def gen_invx(rng, from_part=False):
+    """Arrays whose time-signature / key-signature columns CHANGE and RETURN to an earlier value (A B A, A B A B, A B C A,
+    ..., the two beat types different whenever the divisions allow it), with division, beat or both kinds of time
+    columns, an optional pickup, the signatures given as columns or as a `time_sigs` list, voices numbered from 0.
+    A segment is a whole number of bars of its signature; a note stands at every segment start unless `hole` (then the
+    first note that carries the new signature comes later and the rebuilt change can only stand there).
+    from_part: the array is the note array of a generated part whose signatures recur (gen_part(recur=True))."""
+    if from_part:
+        kw = part_kw(rng)
+        kw.update(recur=rng.random() < 0.8, p_unp=0.0)
+        pd = gen_part(rng, "a", divs=rng.choice([1, 2, 3, 4, 6, 8, 12]), nbars=rng.randint(2, 5), **kw)
+        return {"k": "invx", "src": "part", "part": pd, "cols": rng.choice(["both", "both", "div"]),
+                "kscols": rng.random() < 0.5, "spell": rng.random() < 0.5, "sanitize": rng.random() < 0.8}
+    divs0 = rng.choice([1, 2, 2, 3, 4, 4, 6, 8, 12])
+    cols = rng.choice(["both", "both", "both", "div", "div", "beat"])
+    ok = [x for x in TS_POOL if (4 * x[0] * divs0) % x[1] == 0]
+    if cols == "beat":
+        ok = [x for x in ok if x[1] == 4]  # beat columns alone are read as quarters
+    sa = rng.choice(ok)
+    sb = rng.choice([x for x in ok if x[1] != sa[1]] or [x for x in ok if x != sa] or ok)
+    sc = rng.choice([x for x in ok if x not in (sa, sb)] or ok)
+    sig = {"A": sa, "B": sb, "C": sc}
+    pat = rng.choice(["ABA", "ABA", "ABA", "ABAB", "ABCA", "AABA", "ABBA", "ABC", "AB", "ACABA"])
+    keys = {}
+    while len(keys) < 3:
+        keys["ABC"[len(keys)]] = (rng.randint(-7, 7), rng.choice([1, -1]))
+        if len(set(keys.values())) < len(keys):
+            keys.popitem()
+    kpat = rng.choice(["ABA", "ABAB", "AAB", "ABCA", "ABBA", "AAAA"])
+    tsmode = "cols" if (cols == "beat" or rng.random() < 0.8) else "list"
+    neg = 0
+    bar0 = 4 * sa[0] * divs0 // sa[1]
+    if cols != "div" and tsmode == "cols" and bar0 > 1 and rng.random() < 0.3:
+        neg = rng.randint(1, bar0 - 1)
+    segs, t = [], neg
+    for i, L in enumerate(pat):
+        b = sig[L]
+        ln = rng.randint(1, 2) * (4 * b[0] * divs0 // b[1])
+        segs.append({"ts": list(b), "ks": list(keys[kpat[i % len(kpat)]]), "start": t, "end": t + ln})
+        t += ln
+    end = t
+    rows, used = [], set()
+
+    def put(o, dmax, seg, first=False):
+        if dmax <= 0:
+            return
+        for _ in range(1 + (rng.random() < 0.3)):
+            pch = rng.randint(30, 100)
+            if (o, pch) in used:
+                continue
+            used.add((o, pch))
+            d = min(dmax, rng.choice([1, 1, 2, 3, 4, divs0, 2 * divs0, 3 * divs0]))
+            rows.append({"o": o, "d": d, "p": pch, "v": rng.choice([0, 0, 1, 2]), "ts": seg["ts"], "ks": seg["ks"]})
+
+    if neg:
+        put(0, neg, segs[0])
+        if rng.random() < 0.5 and neg > 1:
+            put(rng.randint(1, neg - 1), 1, segs[0])
+    holes = []
+    for i, sg in enumerate(segs):
+        hole = i > 0 and rng.random() < 0.15
+        holes.append(hole)
+        ln = sg["end"] - sg["start"]
+        # the very first sounding note stays inside its segment (it decides the divisions)
+        lim = (sg["end"] if (i == 0 and not neg) else end)
+        if not hole:
+            put(sg["start"], lim - sg["start"], sg)
+        for _ in range(rng.randint(0, 4)):
+            o = sg["start"] + rng.randint(1 if ln > 1 else 0, ln - 1)
+            if o == sg["start"] and hole:
+                continue
+            put(o, end - o, sg)
+    if not rows:
+        put(segs[0]["start"], 1, segs[0])
+    d = {"k": "invx", "src": "gen", "divs0": divs0, "cols": cols, "segs": segs, "rows": rows, "neg": neg, "tsmode": tsmode,
+         "kscols": rng.random() < 0.45, "sanitize": rng.random() < 0.75, "voice": rng.random() < 0.85,
+         # the names the note array gives its key columns, or the names the docstring of note_array_to_score used to
+         # give (repaired, fixes/C05-10: such columns are extra columns and are left alone)
+         "ksnames": rng.choice(["ks", "ks", "ks", "key"]),
+         "divs_arg": divs0 if (cols == "div" or tsmode == "list" or rng.random() < 0.3) else None}
+    if cols == "beat":
+        d["divs_arg"] = None
+    if tsmode == "list":
+        tl = []
+        for sg in segs:
+            if not tl or tl[-1][1:] != sg["ts"] or rng.random() < 0.2:
+                tl.append([sg["start"]] + sg["ts"])
+        d["tsl"] = tl
+    return d
+
+
 def cases(rng, tier):
     n = {"quick": 80, "thorough": 4000, "search": 6000}.get(tier, 80)
     yield {"k": "kinds"}
     # a few parts with every one of the 2^7 option combinations
     for i in range(2 if tier == "quick" else 12):
-        pd = gen_part(rng, "a", **part_kw(rng))
+        kw = part_kw(rng)
+        if i % 2 == 0:
+            # voices numbered from 0 next to positive (and missing) voices, staff 0, octave 0, empty id
+            kw.update(falsy=True, voices=max(2, kw["voices"]), p_none_voice=rng.choice([0, 0.2]))
+        else:
+            kw.update(recur=True)
+        pd = gen_part(rng, "a", **kw)
         yield {"k": "part", "part": pd, "combos": [[bool(m >> b & 1) for b in range(7)] for m in range(128)],
                "entry": "method"}
     # the inverse direction over the whole grid (columns x sign of the first onset x source of the time signature),
@@ -357,6 +536,14 @@ def cases(rng, tier):
     for rep in range({"quick": 2, "thorough": 30, "search": 40}.get(tier, 2)):
         for cell in inv_grid():
             yield gen_inv(rng, want=cell)
+    # the inverse direction over arrays whose signature columns change and come back (A B A ...)
+    late = []
+    for rep in range({"quick": 24, "thorough": 600, "search": 900}.get(tier, 24)):
+        dx = gen_invx(rng, from_part=rep % 3 == 2)
+        if dx.get("kscols") and dx.get("ksnames") == "key":
+            late.append(dx)  # columns the code does not know: at the end of the run
+        else:
+            yield dx
     for i in range(n):
         r = rng.random()
         if r < 0.3:
@@ -405,6 +592,8 @@ def cases(rng, tier):
                    "raw": [rng.uniform(-2, 40) for _ in range(3)],
                    "f32": [str(Fraction(rng.randint(-4000, 40000), rng.choice([1, 2, 3, 5, 6, 7, 12, 48, 1024, 99991])))
                            for _ in range(4)] + [str(Fraction(2 ** 24 + rng.randint(0, 9), rng.choice([1, 2, 8, 2 ** 30])))]}
+    for dx in late:
+        yield dx
 
 
 def rand_tree(rng, npart):
@@ -853,6 +1042,10 @@ def evaluate(d):
                 fails.append("part raised: options %s raised %s: %s" % (o, type(e).__name__, str(e)[:200]))
                 continue
             nrows += len(na)
+            # the float columns BIT FOR BIT: the model evaluates the maps in binary64 operation by operation and stores
+            # binary32 (Model/NoteArrayF64.lean); compared with tolerance 0
+            ev.requests.append("partf %s %s" % (" ".join(W.b(x) for x in o), wire))
+            ev.impl.append(("@approx", table_nested(na), 0.0))
             want_names = expected_names(o, o[6])
             if list(na.dtype.names) != want_names:
                 fails.append("part columns: options %s give %s, expected %s" % (o, list(na.dtype.names), want_names))
@@ -862,6 +1055,17 @@ def evaluate(d):
                 fails.append("part divs_pq: %r" % (set(int(x) for x in na["divs_pq"]),))
             if M.ensure_notearray(na) is not na:
                 fails.append("part dispatch: ensure_notearray does not return a structured array unchanged")
+        # the DEFAULT arguments: no option given = every include_* off (Gen/C05Tables.lean `defaults`, C05.defaults_as_modelled)
+        o0 = [False] * 7
+        wire0 = safe_part_wire(pd, part, o0)
+        if wire0 is not None:
+            fn0 = {"method": lambda: part.note_array(), "func": lambda: M.note_array_from_part(part),
+                   "ensure": lambda: M.ensure_notearray(part)}[d.get("entry", "method")]
+            na0, e0 = obs(ev, "part %s %s %s" % (d.get("entry", "method"), " ".join(W.b(x) for x in o0), wire0), fn0)
+            if e0 is not None:
+                fails.append("part raised: without options raised %s: %s" % (type(e0).__name__, str(e0)[:200]))
+            elif list(na0.dtype.names) != expected_names(o0, False):
+                fails.append("part columns: without options the table has %s, expected %s" % (list(na0.dtype.names), expected_names(o0, False)))
         if G.fingerprint_part(part) != fp0:
             fails.append("part frame: note_array modified the part")
         ev.key = str(hash("|".join(ev.requests))) if nrows else None
@@ -941,6 +1145,28 @@ def evaluate(d):
                         fails.append("score rescale: row %s is at %d/%d lasting %d/%d, the part has it at %d/%d lasting %d/%d" % (
                             r["id"], r["onset_div"], dq, r["duration_div"], dq, e2["onset_div"], divs[j], e2["duration_div"], divs[j]))
                         break
+        if entry in ("score", "list", "group") and not multi:
+            # the DEFAULT arguments: ids are part-prefixed, every include_* is off
+            o0 = [False] * 7
+            wires0 = [safe_part_wire(pd, p, o0) for pd, p in zip(pds, parts)]
+            if all(w is not None for w in wires0):
+                if entry == "score":
+                    fn0 = lambda: S.Score(objs).note_array()
+                elif entry == "list":
+                    fn0 = lambda: M.note_array_from_part_list(objs)
+                else:
+                    g0 = S.PartGroup(group_name="top")
+                    g0.children = objs
+                    fn0 = lambda: g0.note_array()
+                na0, e0 = obs(ev, "score %s %s %s %s" % (entry, W.b(True), " ".join(W.b(x) for x in o0), items_wire(tree, wires0)), fn0)
+                if e0 is not None:
+                    fails.append("score raised: without options raised %s: %s" % (type(e0).__name__, str(e0)[:200]))
+                elif len(na0) and len(eff) > 1:
+                    ent0, _ = tree_expected(eff, exps, divs, True)
+                    want0 = sorted(ent0[j] + nid for j in flat(tree) for nid in exps[j])
+                    if sorted(str(x) for x in na0["id"]) != want0:
+                        fails.append("score rows: without options the ids are %s, expected part-prefixed ids %s" % (
+                            sorted(str(x) for x in na0["id"])[:8], want0[:8]))
         for p, f in zip(parts, fps):
             if G.fingerprint_part(p) != f:
                 fails.append("score frame: note_array modified a part")
@@ -977,10 +1203,22 @@ def evaluate(d):
             if list(na.dtype.names) != want_names:
                 fails.append("rests columns: options %s give %s, expected %s" % (c, list(na.dtype.names), want_names))
             if not collapse:
+                ev.requests.append("restsf %s %s" % (" ".join(W.b(x) for x in o), wire))
+                ev.impl.append(("@approx", table_nested(na), 0.0))
                 check_rows(na, [(part, exp)], "rests", fails)
                 check_described(na, [pd], [""], "rests", fails)
             else:
                 check_collapsed(na, part, exp, fails)
+        o0 = [False] * 7
+        wire0 = safe_part_wire(pd, part, o0)
+        if wire0 is not None:
+            fn0 = {"method": lambda: part.rest_array(), "func": lambda: M.rest_array_from_part(part),
+                   "ensure": lambda: M.ensure_rest_array(part)}[d.get("entry", "method")]
+            na0, e0 = obs(ev, "rests %s %s %s %s" % (d.get("entry", "method"), W.b(False), " ".join(W.b(x) for x in o0), wire0), fn0)
+            if e0 is not None:
+                fails.append("rests raised: without options raised %s: %s" % (type(e0).__name__, str(e0)[:200]))
+            elif list(na0.dtype.names) != expected_names(o0, False):
+                fails.append("rests columns: without options the table has %s" % (list(na0.dtype.names),))
         if G.fingerprint_part(part) != fp0:
             fails.append("rests frame: rest_array modified the part")
         ev.key = str(hash("|".join(ev.requests))) if nrows else None
@@ -1026,6 +1264,8 @@ def evaluate(d):
         evaluate_kinds(d, ev)
     elif k == "inv":
         evaluate_inv(d, ev)
+    elif k == "invx":
+        evaluate_invx(d, ev)
     elif k == "dfb":
         evaluate_dfb(d, ev)
     return ev
@@ -1048,6 +1288,22 @@ def evaluate_kinds(d, ev):
                 ev.impl.append("refused" if is_refusal(e) else "err")
         if fn(arr) is not arr:
             ev.oracle.append("dispatch: ensure_%s does not return a structured array unchanged" % which)
+    # the id prefix: the live format string (read off the source by harness/translate_c05.py) applied by Python against
+    # the model's `prefixId`
+    try:
+        import translate_c05 as T5
+
+        fmts = [T5.prefix_format(M.note_array_from_part_list), T5.prefix_format(M.rest_array_from_part_list)]
+    except Exception:
+        fmts = ["P{0:02d}_"]
+    for fmt in fmts:
+        for i in (0, 3, 9, 10, 12, 99, 100, 123):
+            for nid in ("n1", "", "P01_x"):
+                ev.requests.append("prefix %d %s" % (i, W.s(nid)))
+                try:
+                    ev.impl.append(W.s(fmt.format(i) + nid))
+                except Exception:
+                    ev.impl.append("err")
     ev.key = "kinds"
 
 
@@ -1452,6 +1708,295 @@ def evaluate_inv(d, ev):
             ev.oracle.append("inverse sanitize: sanitize=False raised %s on an array that sanitize=True accepts" % type(e).__name__)
 
 
+
+def invx_beat(d, t):
+    """beat of division time t of a generated invx description (plain Fractions): the pickup counts back from beat 0,
+    every segment counts in its own beat type"""
+    divs0, neg, segs = d["divs0"], d["neg"], d["segs"]
+    if t < neg:
+        return Fraction(t - neg, divs0) * Fraction(segs[0]["ts"][1], 4)
+    b = Fraction(0)
+    for sg in segs:
+        hi = min(t, sg["end"])
+        if hi > sg["start"]:
+            b += Fraction(hi - sg["start"], divs0) * Fraction(sg["ts"][1], 4)
+    last = segs[-1]
+    if t > last["end"]:
+        b += Fraction(t - last["end"], divs0) * Fraction(last["ts"][1], 4)
+    return b
+
+
+def invx_consistent(rows, divs0):
+    """an array with both kinds of time columns is self-consistent when its beat columns are what its division columns
+    give under its OWN signature columns (the beat type changes at the first row that carries the new one; before the
+    first row the first row's), up to one constant (the pickup).  Only then 'the same beats come back' can be asked."""
+    rs = sorted(rows)
+    ch = []
+    for r in rs:
+        if not ch or ch[-1][1] != r[3][1]:
+            ch.append((r[0], r[3][1]))
+    ch[0] = (0, ch[0][1])
+
+    def B(t):
+        b = Fraction(0)
+        for i, (st, bt) in enumerate(ch):
+            hi = t if i + 1 == len(ch) else min(t, ch[i + 1][0])
+            if hi > st:
+                b += Fraction(hi - st, divs0) * Fraction(bt, 4)
+        return b
+
+    c = B(rs[0][0]) - rs[0][5]
+    # the constant is a pickup: beat 0 lies c beats after time 0 and some note sounds before it; any other offset
+    # (the first bars are silent under a signature no row carries) is not explained by the array
+    if abs(float(c)) > 1e-6 and not (c > 0 and any(r[5] < 0 for r in rs)):
+        return False
+    return all(abs(float(B(r[0]) - c - r[5])) <= 1e-4 * max(1.0, abs(float(r[5]))) and
+               abs(float(B(r[0] + r[1]) - B(r[0]) - r[6])) <= 1e-4 * max(1.0, abs(float(r[6]))) for r in rs)
+
+
+def invx_input(d):
+    """the array, the `divs` argument, the keyword arguments and what is known about the array independently of
+    partitura's inverse direction:
+      truth = {"divs0", "rows": [(onset_div, duration_div, pitch, (beats, beat_type) | None, quarter onset | None,
+                                  beat onset | None, beat duration | None)], "judge_time": bool}"""
+    import numpy.lib.recfunctions as rfn
+
+    cols = d["cols"]
+    if d["src"] == "part":
+        pd = d["part"]
+        part = build_part(pd)
+        na = part.note_array(include_pitch_spelling=bool(d.get("spell")), include_key_signature=bool(d["kscols"]),
+                             include_time_signature=True)
+        # a grace note needs a main note of its voice at its onset IN THE ARRAY (a grace note before the continuation of
+        # a tie has none there: sanitize_part removes such orphans by design)
+        mains = set((int(r["onset_div"]), int(r["voice"])) for r in na if r["duration_div"] > 0)
+        na = na[[i for i, r in enumerate(na) if r["duration_div"] > 0 or (int(r["onset_div"]), int(r["voice"])) in mains]]
+        if len(na) == 0 or not (na["duration_div"] > 0).any():
+            return None
+        fields = (["onset_beat", "duration_beat"] if cols == "both" else []) + ["onset_div", "duration_div", "pitch", "voice"]
+        fields += (["step", "alter", "octave"] if d.get("spell") else []) + (["ks_fifths", "ks_mode"] if d["kscols"] else [])
+        fields += ["ts_beats", "ts_beat_type"]
+        arr = rfn.repack_fields(na[fields]).copy()
+        divs0 = pd["divs"]
+        onsets = set(int(x) for x in na["onset_div"])
+        # every change of beat type stands on a sounding onset (else the array cannot say where it is)
+        judge = not pd.get("qd")
+        prev = None
+        for t, b, bt in sorted(pd["ts"]):
+            if prev is not None and bt != prev and t not in onsets:
+                judge = False
+            prev = bt
+        m0 = pd["measures"][0]
+        ts0 = sorted(pd["ts"])[0]
+        bar0 = Fraction(4 * ts0[1] * divs0, ts0[2])
+        if m0[1] - m0[0] < bar0 and not any(o < m0[1] for o in onsets):
+            judge = False  # a pickup bar without a note: the array's beat 0 is not its time 0 and nothing says why
+        end = max(int(r["onset_div"]) + int(r["duration_div"]) for r in na)
+        if m0[1] - m0[0] >= bar0 and end < bar0:
+            judge = False  # the piece ends before its first bar line (C02 reads the short only measure as a pickup)
+        if len(pd["measures"]) == 1 and m0[1] - m0[0] < bar0:
+            judge = False
+        rows = [(int(r["onset_div"]), int(r["duration_div"]), int(r["pitch"]), (int(r["ts_beats"]), int(r["ts_beat_type"])),
+                 Fraction(float(r["onset_quarter"])), Fraction(float(r["onset_beat"])), Fraction(float(r["duration_beat"])))
+                for r in na]
+        if cols == "div":
+            # division columns alone say nothing about a pickup: time 0 is quarter 0
+            rows = [r[:4] + (Fraction(r[0], divs0),) + r[5:] for r in rows]
+            # ... and the first bar counts from time 0: a signature change before its end cuts the first measure short
+            # (C02 reads a short first measure as a pickup)
+            change = [r[0] for r in sorted(rows) if r[3] != sorted(rows)[0][3]]
+            judge = not pd.get("qd") and end >= bar0 and not (change and change[0] < bar0)
+        if cols == "both" and judge:
+            judge = invx_consistent(rows, divs0)  # e.g. a first bar of rests under a signature no note carries
+        truth = {"divs0": divs0, "rows": rows, "judge_time": judge, "tol": 4}
+        return arr, divs0, {"sanitize": bool(d["sanitize"])}, truth
+    divs0, neg = d["divs0"], d["neg"]
+    tscols = d["tsmode"] == "cols"
+    fields = []
+    if cols in ("beat", "both"):
+        fields += [("onset_beat", "f4"), ("duration_beat", "f4")]
+    if cols in ("div", "both"):
+        fields += [("onset_div", "i4"), ("duration_div", "i4")]
+    fields += [("pitch", "i4")]
+    if d.get("voice", True):
+        fields += [("voice", "i4")]
+    if d["kscols"]:
+        fields += [("%s_fifths" % d.get("ksnames", "ks"), "i4"), ("%s_mode" % d.get("ksnames", "ks"), "i4")]
+    if tscols:
+        fields += [("ts_beats", "i4"), ("ts_beat_type", "i4")]
+    recs, rows = [], []
+    for r in d["rows"]:
+        ob, off = invx_beat(d, r["o"]), invx_beat(d, r["o"] + r["d"])
+        rec = ()
+        if cols in ("beat", "both"):
+            rec += (float(ob), float(off - ob))
+        if cols in ("div", "both"):
+            rec += (r["o"], r["d"])
+        rec += (r["p"],)
+        if d.get("voice", True):
+            rec += (r["v"],)
+        if d["kscols"]:
+            rec += tuple(r["ks"])
+        if tscols:
+            rec += tuple(r["ts"])
+        recs.append(rec)
+        rows.append((r["o"], r["d"], r["p"], tuple(r["ts"]), Fraction(r["o"] - neg, divs0),
+                     Fraction(float(np.float32(float(ob)))), Fraction(float(np.float32(float(off - ob))))))
+    arr = np.array(recs, dtype=fields)
+    kw = {"sanitize": bool(d["sanitize"])}
+    if d.get("tsl"):
+        kw["time_sigs"] = [list(x) for x in d["tsl"]]
+    onsets = set(r["o"] for r in d["rows"])
+    judge = True
+    if tscols:
+        prev = None
+        for sg in d["segs"]:
+            if prev is not None and sg["ts"][1] != prev and sg["start"] not in onsets:
+                judge = False  # the first note with the new beat type comes after the bar line
+            prev = sg["ts"][1]
+    sa = d["segs"][0]["ts"]
+    end = max(r["o"] + r["d"] for r in d["rows"])
+    if end < neg + Fraction(4 * sa[0] * divs0, sa[1]):
+        judge = False
+    if neg and not any(r["o"] < neg for r in d["rows"]):
+        judge = False
+    if cols == "both" and judge and tscols:
+        judge = invx_consistent(rows, divs0)
+    truth = {"divs0": divs0, "rows": rows, "judge_time": judge, "tol": 1}
+    return arr, d.get("divs_arg"), kw, truth
+
+
+def evaluate_invx(d, ev):
+    """note_array_to_score on an array whose signature columns change and return (see gen_invx), and the note array of
+    the part it makes.  Model: request `invx` (fromArrayX: the array -> divisions, signatures with their start times,
+    pickup measure, measures of add_measures (C11 model), then the table of the created part through the C02 / C10
+    models: every column of every row).  Oracle, independent of the model:
+      * 'inverse divs' / 'inverse beats': onsets, durations, pitches come back;
+      * 'inverse signature at onset': the rebuilt part states at every note the time signature the array states there
+        (a change wherever the column changes - also back to an earlier value);
+      * 'inverse onsets back' / 'inverse durations back': the quarter and beat columns that come back are the ones that
+        went in, when the array says where the beat type changes (a note on every such bar line)."""
+    from partitura.musicanalysis.note_array_to_score import note_array_to_score
+    import partitura.score as S
+    import partitura.utils.music as M
+
+    inp = invx_input(d)
+    if inp is None:
+        ev.key = None
+        return
+    arr, divs_arg, kw, truth = inp
+    names = arr.dtype.names
+    hb, hd = "onset_beat" in names, "onset_div" in names
+    ht, hk = "ts_beats" in names, "ks_fifths" in names
+    tsl = kw.get("time_sigs") or []
+    toks = [W.b(hb), W.b(hd), W.b(ht), W.b(hk), W.opt(W.i, divs_arg), str(len(tsl))]
+    for x in tsl:
+        toks += [W.i(x[0]), W.i(x[1]), W.i(x[2])]
+    toks += [W.b(False), W.b(kw.get("sanitize", True)), str(len(arr))]
+    for r in arr:
+        toks += [W.q(float(r["onset_beat"])) if hb else "0", W.q(float(r["duration_beat"])) if hb else "0",
+                 W.i(r["onset_div"]) if hd else "0", W.i(r["duration_div"]) if hd else "0", W.i(r["pitch"]),
+                 W.i(r["ts_beats"]) if ht else "0", W.i(r["ts_beat_type"]) if ht else "0",
+                 W.i(r["ks_fifths"]) if hk else "0", W.i(r["ks_mode"]) if hk else "0"]
+    req = "invx " + " ".join(toks)
+    before = arr.copy()
+    try:
+        part = note_array_to_score(arr, divs=divs_arg, return_part=True, **kw)
+        qd = [int(q) for q in part._quarter_durations]
+        na = part.note_array(include_time_signature=True, include_key_signature=True)
+        ms = sorted((int(m.start.t), int(m.end.t)) for m in part.iter_all(S.Measure))
+        tss = [(int(t.start.t), int(t.beats), int(t.beat_type)) for t in part.iter_all(S.TimeSignature)]
+        kss = [(int(k.start.t), int(k.fifths), int(M.key_mode_to_int(k.mode))) for k in part.iter_all(S.KeySignature)]
+        pieces = sorted((int(n.start.t), int(n.end.t)) for n in part.iter_all(S.Note))
+        back = sorted((int(r["onset_div"]), int(r["duration_div"]), int(r["pitch"]), float(r["onset_quarter"]),
+                       float(r["onset_beat"]), float(r["duration_quarter"]), float(r["duration_beat"]),
+                       int(r["ts_beats"]), int(r["ts_beat_type"]), int(r["ks_fifths"]), int(r["ks_mode"])) for r in na)
+        tl = expected_rows(part)
+        err = None
+    except BaseException as e:
+        if isinstance(e, (KeyboardInterrupt, SystemExit)):
+            raise
+        err = e
+    ev.requests.append(req)
+    ev.key = req
+    if err is not None:
+        ev.impl.append("err")
+        ev.oracle.append("inverse raised: well-formed %s array with changing signature columns %s (divs=%r, %r) raised %s: %s" % (
+            d["cols"], [n for n in names if n[:3] in ("ts_", "ks_") or n[:4] == "key_"], divs_arg, sorted(kw), type(err).__name__, str(err)[:200]))
+        return
+    ev.impl.append(("@approx", ["d:%d" % qd[0], "m:" + ";".join("%d-%d" % m for m in ms),
+                                "t:" + ";".join("%d.%d.%d" % t for t in tss), "k:" + ";".join("%d.%d.%d" % k for k in kss), "n:" + ";".join("%d-%d" % x for x in pieces),
+                                [[b[3], b[4], b[5], b[6], "r:" + "/".join("%d" % x for x in b[:3] + b[7:])] for b in back]],
+                    RTOL))
+    if not (arr == before).all():
+        ev.oracle.append("inverse frame: note_array_to_score modified its argument")
+    ev.info["measures"] = len(ms)
+    ev.info["tschanges"] = len(tss)
+    ev.info["kschanges"] = len(kss)
+    trip = [b[:3] for b in back]
+    trip_tl = sorted((e["onset_div"], e["duration_div"], e["pitch"]) for e in tl.values())
+    if trip_tl != trip:
+        ev.oracle.append("inverse timeline: the new part's timeline holds %s, its note array %s" % (trip_tl[:8], trip[:8]))
+    for nid, e in tl.items():
+        if not e["contiguous"] or not e["same_pitch"]:
+            ev.oracle.append("inverse ties: the tie chain of %s is not one sounding note (gap or pitch change)" % nid)
+    if len(qd) != 1:
+        ev.oracle.append("inverse divisions: new part has quarter durations %r" % (qd,))
+        return
+    dv, divs0 = qd[0], truth["divs0"]
+    given = sorted(truth["rows"], key=lambda r: r[:3])
+    if d["cols"] == "beat":
+        lo = min(r[4] for r in given)
+        sh = -lo if lo < 0 else 0
+        want = sorted((r[4] + sh, Fraction(r[1], divs0), r[2]) for r in given)
+        got = sorted((Fraction(a, dv), Fraction(b, dv), p) for a, b, p in trip)
+        if got != want:
+            ev.oracle.append("inverse beats: quarters of the new part %s, of the array %s" % (
+                [(str(a), str(b), p) for a, b, p in got][:8], [(str(a), str(b), p) for a, b, p in want][:8]))
+            return
+    else:
+        if trip != [r[:3] for r in given]:
+            ev.oracle.append("inverse divs: new part has %s, the array %s" % (trip[:8], [r[:3] for r in given][:8]))
+            return
+        if dv != divs0:
+            ev.oracle.append("inverse divisions: new part has %d divisions per quarter; the array's own columns say %d" % (dv, divs0))
+            return
+    if len(back) != len(given):
+        return
+    # the signature the rebuilt part states at every note: a change wherever the column (or the list) changes
+    if ht or tsl:
+        for r, b in zip(given, back):
+            if tuple(b[7:9]) != tuple(r[3]):
+                ev.oracle.append("inverse signature at onset: the note of pitch %d at division %d carries %d/%d in the array "
+                                 "(signatures in order of onset: %s); the rebuilt part states %d/%d there (its time signatures: %s)" % (
+                                     r[2], r[0], r[3][0], r[3][1], destutter([x[3] for x in given]), b[7], b[8], tss))
+                break
+    # quarter and beat columns come back as they went in
+    if truth["judge_time"] and d["cols"] != "beat":
+        tol = truth["tol"]
+        for r, b in zip(given, back):
+            okq = abs(b[3] - float(r[4])) <= tol * RTOL * max(1.0, abs(float(r[4])))
+            okb = d["cols"] != "both" or abs(b[4] - float(r[5])) <= tol * RTOL * max(1.0, abs(float(r[5])))
+            if not (okq and okb):
+                ev.oracle.append("inverse onsets back: the note of pitch %d at division %d went in at quarter %s / beat %s; it comes back "
+                                 "at quarter %r / beat %r (signatures of the array in order of onset: %s; time signatures of the "
+                                 "rebuilt part: %s)" % (r[2], r[0], r[4], r[5], b[3], b[4], destutter([x[3] for x in given]), tss))
+                break
+            if d["cols"] == "both" and abs(b[6] - float(r[6])) > tol * RTOL * max(1.0, abs(float(r[6]))):
+                ev.oracle.append("inverse durations back: the note of pitch %d at division %d lasts %s beats in the array, %r beats "
+                                 "come back" % (r[2], r[0], r[6], b[6]))
+                break
+        ev.info["back"] = 1
+
+
+def destutter(xs):
+    out = []
+    for x in xs:
+        if not out or out[-1] != x:
+            out.append(x)
+    return out
+
+
 def evaluate_dfb(d, ev):
     from partitura.musicanalysis.note_array_to_score import create_divs_from_beats, create_beats_from_divs
 
@@ -1488,6 +2033,10 @@ def evaluate_dfb(d, ev):
         # the model's float32 rounding against numpy's, on the binary64 value
         ev.requests.append("f32 %s" % W.q(float(x)))
         ev.impl.append(W.f_rat(Fraction(f32)))
+    for x in d.get("f32", []):
+        # the model's binary64 rounding against Python's: Fraction -> float is correctly rounded
+        ev.requests.append("f64 %s" % W.q(Fraction(x) / 3))
+        ev.impl.append(W.f_rat(Fraction(float(Fraction(x) / 3))))
     for x in d.get("f32", []):
         fx = Fraction(x)
         # numpy rounds the binary64 value; use rationals that binary64 holds exactly or whose double rounding is harmless
@@ -1583,6 +2132,31 @@ def distribution(descs, results):
                 feats["inv_grid_" + "_".join(d["grid"][:2])] += 1
             elif d.get("wf", True) and d["cols"] == "beat" and min(x["o"] for x in d["rows"]) - d.get("neg", 0) > 0:
                 feats["inv_beat_pos"] += 1
+    for d in descs:
+        if d["k"] == "invx":
+            feats["invx_" + d["src"] + "_" + d["cols"]] += 1
+            feats["invx_sanitize"] += bool(d.get("sanitize"))
+            feats["invx_key_columns"] += bool(d.get("kscols"))
+            if d["src"] == "gen":
+                sigs = destutter([tuple(sg["ts"]) for sg in d["segs"]])
+                feats["invx_signature_returns"] += len(set(sigs)) < len(sigs)
+                feats["invx_beat_type_changes"] += len(set(x[1] for x in sigs)) > 1
+                feats["invx_pickup"] += d["neg"] > 0
+                feats["invx_time_sigs_list"] += d["tsmode"] == "list"
+                feats["invx_voice_zero"] += any(r["v"] == 0 for r in d["rows"])
+            else:
+                sigs = destutter([tuple(x[1:]) for x in sorted(d["part"]["ts"])])
+                feats["invx_signature_returns"] += len(set(sigs)) < len(sigs)
+    for d in descs:
+        for pd in ([d["part"]] if "part" in d else d.get("parts", [])):
+            feats["voice_zero"] += any(n.get("voice") == 0 for n in pd["notes"])
+            feats["staff_zero"] += any(n.get("staff") == 0 for n in pd["notes"])
+            feats["octave_le_zero"] += any(n.get("oct", 1) <= 0 for n in pd["notes"] if n["kind"] != "rest")
+            feats["empty_id"] += any(n["id"] == "" for n in pd["notes"])
+            sg = destutter([tuple(x[1:]) for x in sorted(pd["ts"])])
+            feats["part_signature_returns"] += len(set(sg)) < len(sg)
+    feats["invx_time_signatures_of_new_part_gt1"] = sum(1 for r in results if (r.get("info") or {}).get("tschanges", 0) > 1)
+    feats["invx_key_signatures_of_new_part_gt1"] = sum(1 for r in results if (r.get("info") or {}).get("kschanges", 0) > 1)
     feats["inv_onsets_back_judged"] = sum(1 for r in results if r.get("info", {}).get("back", 0) > 0)
     feats["inv_with_measures"] = sum(1 for r in results if r.get("info", {}).get("measures", 0) > 0)
     feats["inv_notes_split_by_tie_notes"] = sum(1 for r in results if r.get("info", {}).get("split", 0) > 0)
